@@ -19,7 +19,8 @@ CLAIMED = {
                 "order, volumes) in every history must be bit-identical to the value a fresh interpreter returns as the "
                 "first call on a fresh object; the reference is computed in two cold interpreters with different hash "
                 "seeds, initial RNG states and order, which must agree (cross-process clause); prefix clause compared "
-                "bitwise for the polytope algorithms. Sampling of histories, not proof - the history is the "
+                "bitwise for the polytope algorithms; a sample of returned objects is kept and digested again at the end "
+                "of the history (a getter must not change what an earlier getter call handed out). Sampling of histories, not proof - the history is the "
                 "quantifier, which a fixed unit test cannot vary.",
         "note": "Trusted: numpy/scipy/Qhull determinism for identical input, sha256 digests, the getter list in "
                 "sim/session.py. Only call-level interleavings (no pre-emption inside a library call). Bounds: quick "
@@ -54,7 +55,8 @@ CLAIMED = {
         "text": "Mostly a seeded round trip, said plainly: the simulator adds process separation (reader in a fresh "
                 "interpreter), overwrite and crash/re-run histories on re-used paths, and an in-process fake peer for "
                 "gmx energy. Loaded arrays/sparse matrices must equal the writer's in-memory values bit for bit "
-                "(format and index arrays included); energy frames must have one row per data line in order, columns "
+                "(format and index arrays included), and those in turn a FullGrid built directly from the same strings; "
+                "one reader object may be asked again after its file was rewritten; energy frames must have one row per data line in order, columns "
                 "Time + legends, values == float(token); csv round trips must be identical.",
         "note": "Trusted: numpy/scipy/pandas file formats, Python float() as the reference parser. No byte-level "
                 "corruption is injected against the oracle (no checksum is promised). Legends distinct and without "
